@@ -212,7 +212,7 @@ func init() {
 	register(&Def{
 		ID:          "C14",
 		Technique:   "effect (alias/taint) analysis of WithData, identity-accessor rule, decision-list extraction of ErrorCode, provenance of the response's error member and of the client's settled fields, constant tables of filterError vs ErrorCode",
-		Explanation: "Decides: (D1) WithData performs no store, append, copy or map update that reaches memory owned by its receiver; (D2) every ErrCode method returns its receiver's code unchanged and Code.Err returns nil exactly for NoError, else the code itself; (D3) ErrorCode's decision list is nil → NoError, ErrCoder → its code, Canceled → Cancelled, DeadlineExceeded → DeadlineExceeded, else SystemError, in that order; (D4) the response builder forwards an *Error by identity (type assertion on task.err, no unwrapping) and maps any other error to Code = ErrorCode(task.err) (InternalError only on the NoError edge), Message = task.err.Error(); (D5) a Response settles with exactly the received message's error and result, Call/Callback return it through filterError, and filterError inverts ErrorCode on the two context sentinels; (D6) the invoke function returns json.Marshal's pair unmodified. (D7) when marshalling a callback result fails, the reply gets an error member on every path. (D8) every store into an Error's fields in the root package goes to a value allocated in the same function: sentinels, handler errors and decoded wire errors are never modified. (D9) every non-nil result of Code.Err is the receiver itself; filterError restores a context sentinel on the error's code alone. (D10) the response builder sets the result member only on the task.err == nil edge (never on a comparison of the error's code). Also decided: every return of Response.UnmarshalResult other than the response's own error is on the err == nil edge.",
+		Explanation: "Decides: (D1) WithData performs no store, append, copy or map update that reaches memory owned by its receiver; (D2) every ErrCode method returns its receiver's code unchanged and Code.Err returns nil exactly for NoError, else the code itself; (D3) ErrorCode's decision list is nil → NoError, ErrCoder → its code, Canceled → Cancelled, DeadlineExceeded → DeadlineExceeded, else SystemError, in that order; (D4) the response builder forwards an *Error by identity (type assertion on task.err, no unwrapping) and maps any other error to Code = ErrorCode(task.err) (InternalError only on the NoError edge), Message = task.err.Error(); (D5) a Response settles with exactly the received message's error and result, Call/Callback return it through filterError, and filterError inverts ErrorCode on the two context sentinels; (D6) the invoke function returns json.Marshal's pair unmodified. (D7) when marshalling a callback result fails, the reply gets an error member on every path. (D8) every store into an Error's fields in the root package goes to a value allocated in the same function: sentinels, handler errors and decoded wire errors are never modified. (D9) every non-nil result of Code.Err is the receiver itself; filterError restores a context sentinel on the error's code alone. (D10) the response builder sets the result member only on the task.err == nil edge (never on a comparison of the error's code). Also decided: every return of Response.UnmarshalResult other than the response's own error is on the err == nil edge. (D11) the Code and Error types have no marshalling methods of their own (the default coding is exact for every int32), and the HTTP adapters build an Error only with a constant code — never from the code or message of another error.",
 		NotDecided:  []string{"JSON-equality of data across the wire", "behaviour of arbitrary user ErrCoder / Unwrap chains beyond errors.As/Is"},
 		Assumptions: []string{"errors.As / errors.Is semantics"},
 		RuleText:    ruleText,
@@ -236,6 +236,8 @@ func init() {
 			ruleResultErrorFirst(c)
 			ruleCallbackMarshalErrorReported(c)
 			ruleEveryPeerErrorFiltered(c)
+			ruleErrorWireDefault(c)
+			ruleHTTPNeverRebuildsErrors(c)
 			ruleWatcherReportsCtxErr(c, "client")
 			ruleWatcherReportsCtxErr(c, "server")
 			ruleFilterErrorTable(c)
